@@ -13,6 +13,17 @@ pub(crate) fn radio_wl(hp: bool) -> Sx126x<MockSpi, MockIv, Stm32wl> {
     Sx126x::new(MockSpi::new(), MockIv::new(), Config { chip: Stm32wl { use_high_power_pa: hp }, tcxo_ctrl: None, use_dcdc: kani::any(), rx_boost: kani::any() })
 }
 
+// concrete radios for native replays of the generated C13 harnesses (no kani::any())
+pub(crate) fn radio_1262_c(fill: u8) -> Sx126x<MockSpi, MockIv, Sx1262> {
+    Sx126x::new(MockSpi::concrete(fill), MockIv::new(), Config { chip: Sx1262, tcxo_ctrl: None, use_dcdc: fill & 1 != 0, rx_boost: fill & 2 != 0 })
+}
+pub(crate) fn radio_1261_c(fill: u8) -> Sx126x<MockSpi, MockIv, Sx1261> {
+    Sx126x::new(MockSpi::concrete(fill), MockIv::new(), Config { chip: Sx1261, tcxo_ctrl: None, use_dcdc: fill & 1 != 0, rx_boost: fill & 2 != 0 })
+}
+pub(crate) fn radio_wl_c(hp: bool, fill: u8) -> Sx126x<MockSpi, MockIv, Stm32wl> {
+    Sx126x::new(MockSpi::concrete(fill), MockIv::new(), Config { chip: Stm32wl { use_high_power_pa: hp }, tcxo_ctrl: None, use_dcdc: fill & 1 != 0, rx_boost: fill & 2 != 0 })
+}
+
 //@h id=ldro_rule_sx126x props=C15 tier=quick build=phy cost=20 timeout=900
 //@bounds all 8 SF x 10 BW x 4 CR, any frequency >= 400 MHz: LDRO decision of Sx126x::create_modulation_params
 //@encodes Sx126x::create_modulation_params, spreading_factor_value, bandwidth_value, coding_rate_value
